@@ -110,6 +110,7 @@ pub fn run_suite_with(em: &mut Emit, thorough: bool, abort: bool, body_drop: boo
                             extra_polls: if c20 { 3 } else { 1 },
                             spurious,
                             drop_body_after,
+                            gz_level: 0,
                         };
                         counter += 1;
                         if counter % shard_k != shard_i {
@@ -169,4 +170,56 @@ pub fn pred_c11_sched(prog: &Program, r: &RunResult) -> String {
         }
     }
     "ok".into()
+}
+
+/// C10 for gzip writers: the encoder's traffic through the chunk writer under all schedules
+/// (bounded per program), compared with the raw-writer model run on the chunker-level writes.
+pub fn run_gz_suite(em: &mut Emit, thorough: bool) {
+    install_hook();
+    let (shard_i, shard_k) = shard();
+    let per_prog_limit = if thorough { 3000 } else { 120 };
+    let payloads: [&[u8]; 3] = [b"", b"hello", b"aaaaaaaaaaaaaaaaaaaaaaaaaaaaaaaaaaaaaaaaaaaaaaaaaaaaaaaaaaaaaa"];
+    let mut counter = 0usize;
+    let mut total = 0usize;
+    for cap in [3usize, 7, 4096] {
+        for level in [1u32, 6, 9] {
+            for p1 in payloads {
+                for shape in 0..3 {
+                    counter += 1;
+                    if counter % shard_k != shard_i {
+                        continue;
+                    }
+                    let prod = match shape {
+                        0 => vec![PCmd::Write(p1.to_vec()), PCmd::Drop],
+                        1 => vec![PCmd::Write(p1.to_vec()), PCmd::Flush, PCmd::Drop],
+                        _ => vec![PCmd::Flush, PCmd::Write(p1.to_vec()), PCmd::Flush, PCmd::Write(b"x".to_vec()), PCmd::Drop],
+                    };
+                    let prog = Program {
+                        cap,
+                        prod,
+                        policy: if shape == 1 { WakerPolicy::Fresh } else { WakerPolicy::Same },
+                        extra_polls: 1,
+                        spurious: if shape == 2 { 1 } else { 0 },
+                        drop_body_after: None,
+                        gz_level: level,
+                    };
+                    let (n, _) = explore(&prog, per_prog_limit, |r| {
+                        let p = pred_c10(&prog, r);
+                        // the bytes received must be one gzip member decoding to what was written
+                        let p = if p == "ok"
+                            && r.consumer_saw_terminal.as_deref() == Some("END")
+                            && !crate::suites_neg::gunzip_ok(&r.delivered, &r.accepted)
+                        {
+                            "FAIL:delivered bytes do not gunzip to the bytes written".to_string()
+                        } else {
+                            p
+                        };
+                        em.case(&sched_line(&prog, r), &sched_out_gz(r), &p, &format!("gz:cap{}:{}", cap.min(8), class(&prog, r)));
+                    });
+                    total += n;
+                }
+            }
+        }
+    }
+    em.note("sched-gz", &format!("schedules={}", total));
 }
